@@ -60,8 +60,8 @@ theorem tailAt_colOf (d : ColumnDump) (a tl : Nat) (h : (colOf d).tailAt a = som
   exact ⟨x, hx, h1, by rw [h2]⟩
 
 theorem tiers_colOf (d : ColumnDump) (t : Nat) (T : Tier) (h : (colOf d).tiers.get t = some T) :
-    ∃ td ∈ d.tables, td.tier = t ∧ T = ⟨td.filled, freeOf td⟩ := by
-  have := get_foldl_set (fun x : TableDump => x.tier) (fun x => (⟨x.filled, freeOf x⟩ : Tier)) t T
+    ∃ td ∈ d.tables, td.tier = t ∧ T = ⟨td.filled, freeOf td, chainRecs td⟩ := by
+  have := get_foldl_set (fun x : TableDump => x.tier) (fun x => (⟨x.filled, freeOf x, chainRecs x⟩ : Tier)) t T
     d.tables Trie.empty h
   rcases this with ⟨x, hx, h1, h2⟩ | h1
   · exact ⟨x, hx, h1, h2.symm⟩
@@ -230,7 +230,7 @@ structure IndexOk (d : ColumnDump) : Prop where
   prog : progOk (colOf d) (keyed d) = true
   expected : ∀ ex, d.expected = some ex →
     (∀ k ∈ ex, k ∈ keysOf d) ∧ (∀ k ∈ keysOf d, k ∈ ex)
-  absSlots : d.tables.any (·.multipart) = false → absSlotsOk d (colOf d) = true
+  absSlots : absSlotsOk d (colOf d) = true
 
 theorem guardR_none (c : Bool) (r : String) (k : Unit → Option String) :
     guardR c r k = none ↔ c = true ∧ k () = none := by
@@ -313,9 +313,7 @@ theorem indexReason_none (d : ColumnDump) (h : indexReason d = none) : IndexOk d
       obtain ⟨x, hx, he⟩ := List.mem_map.1 hk
       obtain ⟨y, hy, he'⟩ := h13.2 x hx
       rw [← he, ← he']; exact hy
-  · intro hm
-    rw [hm] at h14
-    simpa using h14
+  · exact h14
 
 theorem checkIndex_ok (d : ColumnDump) (h : checkIndex d = true) : IndexOk d := by
   apply indexReason_none
